@@ -307,18 +307,10 @@ Section Accept.
       rewrite app_nil_r. rewrite (all_no_subs ops (proj2 H1)). reflexivity. }
     rewrite ER.
     (* optimiser *)
-    assert (EO : (if o_opt_slots o
-                  then let skip := skip_slots p [mkCR None g 0 0] in
-                       fold_right (fun c acc =>
-                         match acc, optimize_routine (cr_graph c) (cr_start c) skip with
-                         | COk l, Some g => COk (mkCR (cr_sub c) g (cr_start c) (cr_end c) :: l)
-                         | COk _, None => CErr CrashRecursion
-                         | CErr e, _ => CErr e
-                         end) (COk []) [mkCR None g 0 0]
-                  else COk [mkCR None g 0 0]) = COk [mkCR None g 0 0]).
-    { destruct (o_opt_slots o); [|reflexivity]. cbn [fold_right cr_graph cr_start cr_sub cr_end].
-      rewrite (optimize_none g ops _ H1). reflexivity. }
-    rewrite EO.
+    cbv zeta. cbn [fold_right cr_graph cr_start cr_sub cr_end].
+    rewrite (optimize_none g ops _ H1).
+    replace (if o_opt_slots o then COk [mkCR None g 0 0] else COk [mkCR None g 0 0])
+      with (@COk (list croutine) [mkCR None g 0 0]) by (destruct (o_opt_slots o); reflexivity).
     destruct (assign_slots_none p g ops H1) as (g2 & locals & asg & EA & H2).
     rewrite EA. cbn [fold_right cr_graph cr_start cr_end cr_sub].
     rewrite (sort_one g2 ops H2). rewrite (flatten_one_block g2 ops H2).
